@@ -1,16 +1,68 @@
-"""C05: lossless coders and bit I/O (crle.c, cnbit.c, hbitio.c)"""
+"""C05: lossless coders and bit I/O (crle.c, hbitio.c, cnbit.c)"""
+import os
 from .core import ob, prop
+
+CADICAL = ["--sat-solver", "cadical"]
 
 # ----------------------------------------------------------------------------- crle.c
 RLE = dict(unit="crle_u.c", file="hdf/src/crle.c", cex_unwind=14)
-ob("crle_encode", "C05", entry="h_crle_encode", enforce="HCIcrle_encode", loops=True, nloops=1, loopcls="P", **RLE)
+# (a) unbounded, loop contracts.  *_wf: RLE_WF state invariant, every buffer index in bounds, packet
+# well-formedness, offset/packet-length accounting for ANY length and bytes (ghost-element clause
+# switched off: quick).  Full versions add the ghost stream position g_k: what the emitted packets
+# decode to at g_k is the input byte at g_k (encode/term), the byte delivered for g_k is what the
+# fetched packets decode to (decode).
+ob("crle_encode_wf", "C05", entry="h_crle_encode", enforce="HCIcrle_encode", loops=True, nloops=1, loopcls="P",
+   defines=["RLE_NO_GHOST"], flags=CADICAL, timeout=600, **RLE)
+ob("crle_encode", "C05", entry="h_crle_encode", enforce="HCIcrle_encode", loops=True, nloops=1, loopcls="P",
+   flags=CADICAL, timeout=1200, tier="thorough", **RLE)
 ob("crle_term", "C05", entry="h_crle_term", enforce="HCIcrle_term", **RLE)
-ob("crle_decode", "C05", entry="h_crle_decode", enforce="HCIcrle_decode", loops=True, nloops=1, loopcls="P", **RLE)
+ob("crle_decode_wf", "C05", entry="h_crle_decode", enforce="HCIcrle_decode", loops=True, nloops=1, loopcls="P",
+   defines=["RLE_GHOST_COPY", "RLE_NO_GHOST"], flags=CADICAL, timeout=600,
+   trusted=["ghost-element models of memcpy/memset (range checked + havocked, watched byte exact)"], **RLE)
+ob("crle_decode", "C05", entry="h_crle_decode", enforce="HCIcrle_decode", loops=True, nloops=1, loopcls="P",
+   defines=["RLE_GHOST_COPY"], flags=CADICAL, timeout=1800, tier="thorough",
+   trusted=["ghost-element models of memcpy/memset (range checked + havocked, watched byte exact)"], **RLE)
 ob("crle_init", "C05", entry="h_crle_init", enforce="HCIcrle_init", **RLE)
-ob("crle_roundtrip6", "C05", entry="h_crle_roundtrip", mode="bounded",
-   bound="stream <= 6 bytes, full alphabet, any split into <= 3 encode calls + term and <= 3 decode calls",
-   unwind=8, defines=["RT_N=6"], **RLE)
+# (b) bounded round trips through the ghost byte store: init, <=3 encode calls, term, init, <=3 decode calls
+RT = dict(entry="h_crle_roundtrip", mode="bounded", objbits=11, flags=CADICAL,
+          trusted=["byte-loop models of memcpy/memset (source re-based on the typed RLE buffer)"], **RLE)
+ob("crle_roundtrip3", "C05", bound="stream <= 3 bytes, full alphabet, any split into <= 3 encode calls + term and <= 3 decode calls",
+   unwind=5, defines=["RT_N=3", "RLE_LOOP_COPY"], timeout=600, **RT)
+ob("crle_roundtrip4", "C05", bound="stream <= 4 bytes, full alphabet, any split into <= 3 encode calls + term and <= 3 decode calls",
+   unwind=6, defines=["RT_N=4", "RLE_LOOP_COPY"], timeout=1800, tier="thorough", **RT)
+ob("crle_roundtrip6", "C05", bound="stream <= 6 bytes, full alphabet, any split into <= 3 encode calls + term and <= 3 decode calls",
+   unwind=8, defines=["RT_N=6", "RLE_LOOP_COPY"], timeout=5400, tier="thorough", **RT)
+
+# ----------------------------------------------------------------------------- hbitio.c
+_HB = os.path.join(os.environ.get("H4V_REPO", "/repo"), "hdf/src/hbitio.c")
+# dfcc havocs every static; the function-static id caches of Hbitwrite/Hbitread cannot be named from C.
+# Keep their C initialisers (-1/NULL = fresh library state); afterwards only real calls drive them.
+BIT_GI = []
+for _f in ("Hbitwrite", "Hbitread"):
+    for _v in ("last_bit_id", "bitfile_rec"):
+        BIT_GI += ["--nondet-static-exclude", f"{_HB}:{_f}::1::{_v}"]
+BIT = dict(unit="hbitio_u.c", file="hdf/src/hbitio.c", gi_flags=BIT_GI, objbits=10, cex_unwind=18,
+           trusted=["calloc never fails (__CPROVER_allocate)", "one-slot atom registry", "ghost byte store behind Hwrite/Hread/Hseek/Hinquire"])
+ob("bit_masks", "C05", entry="h_bit_masks", unit="hbitio_u.c", file="hdf/src/hbitio.c")
+ob("bit_unknown_id", ["C05", "C13"], entry="h_bit_unknown_id", unwind=18, **BIT)
+# C13 / DESIGN 9 D6: expected to FAIL on the unchanged tree (function-static record cache)
+ob("bit_stale_write", ["C05", "C13"], entry="h_bit_stale_write", mode="bounded",
+   bound="2-call history: Hstartbitwrite, Hbitwrite(1..7 bits), Hendbitaccess, Hbitwrite(same id)", unwind=18, **BIT)
+ob("bit_stale_read", ["C05", "C13"], entry="h_bit_stale_read", mode="bounded",
+   bound="2-call history: Hstartbitread (4-byte element), Hbitread(1..7 bits), Hendbitaccess, Hbitread(same id)", unwind=18, **BIT)
 
 prop("C05",
-     residual="skipping-Huffman, deflate (zlib external), HCPcrle_seek restart, hcomp.c dispatch/header, reopen",
-     assumptions=[])
+     residual="skipping-Huffman, deflate (zlib external), n-bit coder, HCPcrle_seek restart, hcomp.c dispatch/header "
+              "codec, reopen of compressed elements; composition of the unbounded encode and decode proofs into a "
+              "round trip is by the shared PK_* packet semantics of the stubs (machine-checked only up to 6 bytes)",
+     assumptions=[
+         "A-RLE-IO: Hread/HDgetc report a short read as FAIL; HDputc/Hwrite either store all bytes or FAIL",
+         "A-RLE-VIEW: the harness allocates compinfo_t as a same-size object whose declared type exposes the RLE "
+         "member of the coder union (cbmc models the union as one bit-vector); the kernels see the same memory",
+         "A-RLE-COPY: crle_decode proofs use ghost-element models of memcpy/memset (whole range checked for "
+         "accessibility and frame, destination havocked, only the byte holding ghost position g_k exact); bounded "
+         "round trips use byte-loop models",
+         "A-BIT-STATIC: the function-static id cache of Hbitwrite/Hbitread starts at its C initialiser -1/NULL "
+         "(fresh library state, --nondet-static-exclude) and is then driven only by real calls",
+         "A-BIT-ENV: calloc does not fail; one bit id / one access id (concrete values); atom layer = one-slot registry",
+     ])
